@@ -1,91 +1,238 @@
 ---------------------------- MODULE ValidateFrame ----------------------------
 (***************************************************************************)
-(* State machine of DataFrameSchema.validate on pandas                      *)
-(* (DataFrameSchemaBackend.validate, container.py): one action per stage,    *)
-(* the ErrorHandler switch, copy-or-alias of the caller's frame, and one      *)
-(* step per schema component with the save / override / restore of the        *)
-(* component's attributes that run_schema_component_checks performs.          *)
+(* DataFrameSchema.validate on pandas (DataFrameSchemaBackend.validate,      *)
+(* backends/pandas/container.py).  The run is a record `st`; every stage of   *)
+(* the code is an operator st -> st, the state machine takes one stage per    *)
+(* step, and Run(st) composes them (see ValidateSeries.tla for the style).    *)
+(*                                                                           *)
+(*   Preprocess (copy | alias) -> collect_column_info (obj0)                  *)
+(*   core parsers: AddMissing -> StrictFilter -> SetDefaults -> CoerceDtype   *)
+(*   core checks : LabelsUnique -> Presence -> JointUnique                    *)
+(*                 -> ComponentBegin(k) / ComponentBody(k) ... -> Index       *)
+(*   Finish (return | raise | drop rows)                                      *)
+(*                                                                           *)
+(* `sch` is the mutable part of the schema object graph: the coerce flag of    *)
+(* every column component, which run_schema_component_checks saves, overrides  *)
+(* with False and restores in `finally` (C05/C06/C07 build on this).           *)
 (***************************************************************************)
-EXTENDS Frame
-
-VARIABLES S, inp0, lazy, inplace,   \* the call
-          inp, obj, aliased,        \* caller's frame, working frame, same object?
-          sch,                      \* the schema object's mutable attributes (coerce flags of its components)
-          errs, raised, pc, k, out
-vars == <<S, inp0, lazy, inplace, inp, obj, aliased, sch, errs, raised, pc, k, out>>
-Call == <<S, inp0, lazy, inplace>>
+EXTENDS Frame, Parse
 
 NoOut == [kind |-> "none"]
 SchemaAttrs(schema) == [ i \in 1..Len(schema.cols) |-> schema.cols[i].coerce ]
 
-InitWith(schema, frame, lz) ==
-  /\ S = schema /\ inp0 = frame /\ lazy = lz /\ inplace = FALSE
-  /\ inp = frame /\ obj = frame /\ aliased = TRUE
-  /\ sch = SchemaAttrs(schema)
-  /\ errs = <<>> /\ raised = FALSE /\ pc = "preprocess" /\ k = 1 /\ out = NoOut
+Start(schema, frame, lz, ip, dv) ==
+  [S |-> schema, inp0 |-> frame, lazy |-> lz, inplace |-> ip, dev |-> dv,
+   inp |-> frame, obj |-> frame, obj0 |-> frame, aliased |-> TRUE,
+   sch |-> SchemaAttrs(schema),
+   errs |-> <<>>, raised |-> FALSE, pc |-> "preprocess", k |-> 1, out |-> NoOut]
 
-Collect(new) ==
-  IF new = <<>> \/ raised THEN UNCHANGED <<errs, raised>>
-  ELSE IF lazy THEN errs' = errs \o new /\ UNCHANGED raised
-       ELSE errs' = <<new[1]>> /\ raised' = TRUE
+Collect(st, new) ==
+  IF new = <<>> \/ st.raised THEN st
+  ELSE IF st.lazy THEN [st EXCEPT !.errs = @ \o new]
+       ELSE [st EXCEPT !.errs = <<new[1]>>, !.raised = TRUE]
+Write(st, new) == [st EXCEPT !.obj = new, !.inp = IF st.aliased THEN new ELSE @]
+Replace(st, new) == [st EXCEPT !.obj = new, !.aliased = FALSE]      \* the stage builds a new object
+Goto(st, next) == [st EXCEPT !.pc = next]
 
-Preprocess ==
-  /\ pc = "preprocess"
-  /\ aliased' = inplace /\ obj' = inp /\ pc' = "strict"
-  /\ UNCHANGED <<Call, inp, sch, errs, raised, k, out>>
-
-Stage(here, next, new) ==
-  /\ pc = here
-  /\ Collect(new)
-  /\ pc' = next
-  /\ UNCHANGED <<Call, inp, obj, aliased, sch, k, out>>
-
-StrictFilter  == Stage("strict", "labels", StrictOrderedErrors(S, obj))
-LabelsUnique  == Stage("labels", "presence", LabelsUniqueErrors(S, obj))
-Presence      == Stage("presence", "joint", PresenceErrors(S, obj))
-JointUnique   == Stage("joint", "component", JointUniqueErrors(S, obj))
-
-(* run_schema_component_checks: save coerce, override with False, validate,  *)
-(* restore in `finally` -- two steps per component so that the override is a  *)
-(* visible state (C05/C06/C07 build on it)                                     *)
-ComponentBegin ==
-  /\ pc = "component" /\ k <= Len(S.cols)
-  /\ sch' = [sch EXCEPT ![k] = FALSE]
-  /\ pc' = "component_body"
-  /\ UNCHANGED <<Call, inp, obj, aliased, errs, raised, k, out>>
-ComponentBody ==
-  /\ pc = "component_body"
-  /\ Collect(IF ComponentActive(S.cols[k], obj) THEN ColumnComponentErrors(S.cols[k], obj) ELSE <<>>)
-  /\ sch' = [sch EXCEPT ![k] = S.cols[k].coerce]       \* finally: restore
-  /\ k' = k + 1 /\ pc' = "component"
-  /\ UNCHANGED <<Call, inp, obj, aliased, out>>
-IndexComponent ==
-  /\ pc = "component" /\ k > Len(S.cols)
-  /\ Collect(IndexErrorsByPosition(S, obj))
-  /\ pc' = "finish"
-  /\ UNCHANGED <<Call, inp, obj, aliased, sch, k, out>>
-
-Finish ==
-  /\ pc = "finish"
-  /\ pc' = "done"
-  /\ out' = IF errs = <<>> THEN [kind |-> "ok", returned |-> obj]
-            ELSE [kind |-> IF lazy THEN "SchemaErrors" ELSE "SchemaError", errors |-> errs]
-  /\ UNCHANGED <<Call, inp, obj, aliased, sch, errs, raised, k>>
-
-Next == Preprocess \/ StrictFilter \/ LabelsUnique \/ Presence \/ JointUnique
-          \/ ComponentBegin \/ ComponentBody \/ IndexComponent \/ Finish
+Preprocess(st) ==          \* check_obj.copy() unless inplace; collect_column_info on the result
+  Goto([st EXCEPT !.aliased = st.inplace, !.obj = st.inp, !.obj0 = st.inp], "add_missing")
 
 ---------------------------------------------------------------------------
-Done == pc = "done"
-VerdictEqualsSemantics == Done => ((out.kind = "ok") <=> FrameSat(S, inp0))
-IdentityOnSuccess == Done /\ out.kind = "ok" => out.returned = inp0
+(* add_missing_columns *)
+ColByKey(S, key) == S.cols[CHOOSE i \in 1..Len(S.cols) : S.cols[i].key = key]
+AbsentKeys(S, D) == LET ab == Absent(S, D) IN [ i \in 1..Len(ab) |-> ab[i].key ]
+NoDefaultAbsent(S, D) ==
+  Filter(Absent(S, D), LAMBDA cs : IsNull(cs.default) /\ ~cs.nullable)
+
+(* the insertion order computed by the code (a faithful transcription of the     *)
+(* loop over frame columns with the shrinking list of schema columns)            *)
+RECURSIVE TakeAbsent(_, _, _, _)
+(* walk the remaining schema list R from position j: absent-and-not-yet-placed names are placed;  *)
+(* stops at the first other name (break) -- returns <<placed, broke>>                              *)
+TakeAbsent(R, j, absent, placed) ==
+  IF j > Len(R) THEN <<placed, FALSE>>
+  ELSE IF R[j] \in absent /\ R[j] \notin Range(placed)
+       THEN TakeAbsent(R, j + 1, absent, Append(placed, R[j]))
+       ELSE <<placed, TRUE>>
+RECURSIVE OrderLoop(_, _, _, _, _)
+OrderLoop(labs, i, R, absent, O) ==
+  IF i > Len(labs) THEN O
+  ELSE LET t == TakeAbsent(R, 1, absent, <<>>)
+           newly == t[1]
+           R1 == IF t[2] THEN Filter(R, LAMBDA x : x \notin Range(newly)) ELSE R   \* popped only on break
+           R2 == Filter(R1, LAMBDA x : x # labs[i])
+       IN OrderLoop(labs, i + 1, R2, absent, (O \o newly) \o <<labs[i]>>)
+MissingOrder(S, D) ==
+  LET absent == Range(AbsentKeys(S, D))
+      R0 == LET ks == Filter([ i \in 1..Len(S.cols) |-> S.cols[i] ],
+                             LAMBDA cs : Present(D, cs.key) \/ cs.required)
+            IN [ i \in 1..Len(ks) |-> ks[i].key ]
+      O  == OrderLoop(Labels(D), 1, R0, absent, <<>>)
+      rest == Filter(AbsentKeys(S, D), LAMBDA x : x \notin Range(O))
+  IN O \o rest
+
+NewColumn(cs, D) ==        \* a column of the default value, coerced to the column's dtype
+  LET cells == [ r \in 1..NRows(D) |-> cs.default ]
+      r == CoerceCells(cs.dtype, cells)
+  IN [name |-> cs.key, pd |-> IF cs.dtype = "none" THEN "object" ELSE Phys(cs.dtype), cells |-> r.cells]
+
+InsertMissing(S, D) ==
+  LET order == MissingOrder(S, D)
+  IN [D EXCEPT !.cols = [ j \in 1..Len(order) |->
+                            IF Present(D, order[j]) THEN D.cols[PositionsOf(D, order[j])[1]]
+                            ELSE NewColumn(ColByKey(S, order[j]), D) ]]
+
+AddMissing(st) ==
+  Goto(IF ~st.S.addmiss \/ Absent(st.S, st.obj0) = <<>> THEN st
+       ELSE IF NoDefaultAbsent(st.S, st.obj0) # <<>>
+            THEN Collect(st, << FrameErr("ADD_MISSING_COLUMN_NO_DEFAULT", "") >>)
+            ELSE Replace(st, InsertMissing(st.S, st.obj)), "strict")
+
+---------------------------------------------------------------------------
+(* strict_filter_columns: scans the labels recorded BEFORE add_missing (obj0),   *)
+(* raises on the first offender, and drops undeclared columns in place            *)
+StrictFilter(st) ==
+  LET es == StrictOrderedErrors(st.S, st.obj0)
+      st1 == Collect(st, es)
+      undeclared == { lab \in Range(Labels(st.obj0)) : ~Declared(st.S, st.obj0, lab) }
+  IN Goto(IF es = <<>> /\ st.S.strict = "filter"
+          THEN Write(st1, [st1.obj EXCEPT !.cols = Filter(@, LAMBDA c : c.name \notin undeclared)])
+          ELSE st1, "defaults")
+
+(* set_defaults: check_obj[col] = check_obj[col].fillna(default), in place *)
+FillColumn(S, c) ==
+  LET ks == Filter([ i \in 1..Len(S.cols) |-> S.cols[i] ], LAMBDA cs : ~cs.regex /\ cs.key = c.name)
+  IN IF ks = <<>> \/ IsNull(ks[1].default) \/ ~HasNull(c.cells) THEN c
+     ELSE [c EXCEPT !.cells = [ r \in 1..Len(c.cells) |-> IF IsNull(c.cells[r]) THEN ks[1].default ELSE c.cells[r] ]]
+SetDefaults(st) ==
+  Goto(Write(st, [st.obj EXCEPT !.cols = [ j \in 1..Len(@) |-> FillColumn(st.S, @[j]) ]]), "coerce")
+
+(* coerce_dtype: every column whose schema (or the container) asks for coercion,  *)
+(* then the index; every failure is collected, successes are written in place      *)
+ColCoerceTarget(S, c) ==
+  LET ks == Filter([ i \in 1..Len(S.cols) |-> S.cols[i] ],
+                   LAMBDA cs : Matches(cs, c.name) /\ (cs.coerce \/ S.coerce) /\ cs.dtype # "none")
+  IN IF ks = <<>> THEN "none" ELSE ks[1].dtype
+CoerceColumn(S, c) ==
+  LET T == ColCoerceTarget(S, c)
+      r == CoerceCells(T, c.cells)
+  IN IF T = "none" \/ ~r.ok THEN c ELSE [c EXCEPT !.cells = r.cells, !.pd = Phys(T)]
+ColCoerceErrors(S, D) ==
+  (* in schema order, then frame order of the matched labels *)
+  Flatten([ i \in 1..Len(S.cols) |->
+     IF ~(S.cols[i].coerce \/ S.coerce) \/ S.cols[i].dtype = "none" THEN <<>>
+     ELSE LET tg == Targets(S.cols[i], D)
+          IN Flatten([ t \in 1..Len(tg) |->
+               LET p == PositionsOf(D, tg[t])[1]
+                   r == CoerceCells(S.cols[i].dtype, D.cols[p].cells)
+               IN IF r.ok THEN <<>>
+                  ELSE WithCol(Labelled(<< ErrCells("DATATYPE_COERCION", -1, r.bad, D.cols[p].cells) >>, D.idx),
+                               tg[t], "Column") ]) ])
+IndexCoerces(S) == HasIndex(S) /\ (S.index.coerce \/ S.coerce) /\ S.index.dtype # "none"
+CoerceIndexOf(S, D) ==
+  LET r == CoerceCells(S.index.dtype, D.idx)
+  IN IF IndexCoerces(S) /\ r.ok THEN [D EXCEPT !.idx = r.cells, !.idxpd = Phys(S.index.dtype)] ELSE D
+IndexCoerceErrors(S, D) ==
+  LET r == CoerceCells(S.index.dtype, D.idx)
+  IN IF IndexCoerces(S) /\ ~r.ok
+     THEN WithCol(Labelled(<< ErrCells("DATATYPE_COERCION", -1, r.bad, D.idx) >>, D.idx), NA, "Index")
+     ELSE <<>>
+AnyCoerce(S) == S.coerce \/ (HasIndex(S) /\ S.index.coerce) \/ \E i \in 1..Len(S.cols) : S.cols[i].coerce
+CoerceDtype(st) ==
+  Goto(IF ~AnyCoerce(st.S) THEN st
+       ELSE LET D  == st.obj
+                es == ColCoerceErrors(st.S, D) \o IndexCoerceErrors(st.S, D)
+                D1 == [D EXCEPT !.cols = [ j \in 1..Len(@) |-> CoerceColumn(st.S, @[j]) ]]
+            IN Collect(Write(st, CoerceIndexOf(st.S, D1)), es), "labels")
+
+---------------------------------------------------------------------------
+(* core checks on the parsed object *)
+LabelsUnique(st) == Goto(Collect(st, LabelsUniqueErrors(st.S, st.obj)), "presence")
+Presence(st) ==
+  Goto(Collect(st, IF st.S.addmiss THEN <<>> ELSE PresenceErrors(st.S, st.obj)), "joint")
+JointUnique(st) == Goto(Collect(st, JointUniqueErrors(st.S, st.obj)), "component")
+
+(* run_schema_component_checks: save coerce, override with False, validate,       *)
+(* restore in `finally` -- two steps per component so that the override is a       *)
+(* visible state                                                                   *)
+ComponentBegin(st) == Goto([st EXCEPT !.sch[st.k] = FALSE], "component_body")
+ComponentBody(st) ==
+  LET cs == st.S.cols[st.k]
+      es == IF ComponentActive(cs, st.obj) THEN ColumnComponentErrors(cs, st.obj) ELSE <<>>
+  IN Goto([Collect(st, es) EXCEPT !.sch[st.k] = cs.coerce, !.k = st.k + 1], "component")
+IndexComponent(st) ==
+  Goto(Collect(st, IF "IndexFailureCasesByPosition" \in st.dev
+                   THEN IndexErrorsByPosition(st.S, st.obj) ELSE IndexErrorsIdeal(st.S, st.obj)), "finish")
+
+Finish(st) ==
+  [Goto(st, "done") EXCEPT
+     !.out = IF st.errs = <<>> THEN [kind |-> "ok", returned |-> st.obj]
+             ELSE [kind |-> IF st.lazy THEN "SchemaErrors" ELSE "SchemaError", errors |-> st.errs]]
+
+Step(st) ==
+  CASE st.pc = "preprocess"     -> Preprocess(st)
+    [] st.pc = "add_missing"    -> AddMissing(st)
+    [] st.pc = "strict"         -> StrictFilter(st)
+    [] st.pc = "defaults"       -> SetDefaults(st)
+    [] st.pc = "coerce"         -> CoerceDtype(st)
+    [] st.pc = "labels"         -> LabelsUnique(st)
+    [] st.pc = "presence"       -> Presence(st)
+    [] st.pc = "joint"          -> JointUnique(st)
+    [] st.pc = "component"      -> IF st.k <= Len(st.S.cols) THEN ComponentBegin(st) ELSE IndexComponent(st)
+    [] st.pc = "component_body" -> ComponentBody(st)
+    [] st.pc = "finish"         -> Finish(st)
+RECURSIVE Run(_)
+Run(st) == IF st.pc = "done" THEN st ELSE Run(Step(st))
+
+---------------------------------------------------------------------------
+VARIABLE st
+At(p) == st.pc = p
+APreprocess     == At("preprocess")     /\ st' = Preprocess(st)
+AAddMissing     == At("add_missing")    /\ st' = AddMissing(st)
+AStrictFilter   == At("strict")         /\ st' = StrictFilter(st)
+ASetDefaults    == At("defaults")       /\ st' = SetDefaults(st)
+ACoerceDtype    == At("coerce")         /\ st' = CoerceDtype(st)
+ALabelsUnique   == At("labels")         /\ st' = LabelsUnique(st)
+APresence       == At("presence")       /\ st' = Presence(st)
+AJointUnique    == At("joint")          /\ st' = JointUnique(st)
+AComponentBegin == At("component") /\ st.k <= Len(st.S.cols) /\ st' = ComponentBegin(st)
+AComponentBody  == At("component_body") /\ st' = ComponentBody(st)
+AIndexComponent == At("component") /\ st.k > Len(st.S.cols) /\ st' = IndexComponent(st)
+AFinish         == At("finish")         /\ st' = Finish(st)
+Next == APreprocess \/ AAddMissing \/ AStrictFilter \/ ASetDefaults \/ ACoerceDtype \/ ALabelsUnique
+          \/ APresence \/ AJointUnique \/ AComponentBegin \/ AComponentBody \/ AIndexComponent \/ AFinish
+
+---------------------------------------------------------------------------
+Done == st.pc = "done"
+AsIs == {"IndexFailureCasesByPosition"}
+NoParsing(S) == /\ ~AnyCoerce(S) /\ ~S.addmiss /\ S.strict # "filter" /\ ~S.drop
+                /\ \A i \in 1..Len(S.cols) : IsNull(S.cols[i].default)
+Strip(S) == [S EXCEPT !.coerce = FALSE, !.addmiss = FALSE, !.drop = FALSE,
+                      !.strict = IF @ = "filter" THEN "yes" ELSE @,
+                      !.index = IF HasIndex(S) THEN [@ EXCEPT !.coerce = FALSE] ELSE @,
+                      !.cols = [ i \in 1..Len(@) |-> [@[i] EXCEPT !.coerce = FALSE, !.default = NA] ]]
+
+VerdictEqualsSemantics == Done /\ NoParsing(st.S) => ((st.out.kind = "ok") <=> FrameSat(st.S, st.inp0))
+IdentityOnSuccess == Done /\ st.out.kind = "ok" /\ NoParsing(st.S) => st.out.returned = st.inp0
 (* the machine computes what the functional form computes *)
 ReportIsFunctional ==
-  Done /\ out.kind # "ok" =>
-     IF lazy THEN out.errors = FrameErrorsAsIs(S, inp0) ELSE out.errors = <<FrameErrorsAsIs(S, inp0)[1]>>
-(* ideal and as-is reports raise together, and differ only where a named      *)
-(* deviation applies                                                          *)
-IdealAndAsIsAgreeOnVerdict == (FrameErrors(S, inp0) = <<>>) <=> (FrameErrorsAsIs(S, inp0) = <<>>)
-NoCallerMutation == ~inplace => inp = inp0
-SchemaRestored == Done => sch = SchemaAttrs(S)
+  Done /\ st.out.kind # "ok" /\ NoParsing(st.S) /\ st.dev = AsIs =>
+     IF st.lazy THEN st.out.errors = FrameErrorsAsIs(st.S, st.inp0)
+     ELSE st.out.errors = <<FrameErrorsAsIs(st.S, st.inp0)[1]>>
+IdealAndAsIsAgreeOnVerdict ==
+  (FrameErrors(st.S, st.inp0) = <<>>) <=> (FrameErrorsAsIs(st.S, st.inp0) = <<>>)
+LazyEagerAgree ==
+  Done =>
+     LET other == Run(Start(st.S, st.inp0, ~st.lazy, st.inplace, st.dev))
+         lz == IF st.lazy THEN st ELSE other
+         eg == IF st.lazy THEN other ELSE st
+     IN /\ (lz.out.kind = "ok") <=> (eg.out.kind = "ok")
+        /\ eg.out.kind # "ok" => \E e \in 1..Len(lz.out.errors) : lz.out.errors[e] = eg.out.errors[1]
+ParsePostcondition == Done /\ st.out.kind = "ok" => FrameSat(Strip(st.S), st.out.returned)
+ParseFixpoint ==
+  Done /\ st.out.kind = "ok" =>
+     LET again == Run(Start(st.S, st.out.returned, st.lazy, FALSE, st.dev))
+     IN again.out.kind = "ok" /\ again.out.returned = st.out.returned
+NoCallerMutation == ~st.inplace => st.inp = st.inp0
+SchemaRestored == Done => st.sch = SchemaAttrs(st.S)
 =============================================================================
